@@ -197,9 +197,17 @@ func (x *runner) op(line, obs string) {
 	x.o.Op(line, obs)
 }
 
+// hx keeps the first 20 violations of a run; the recorded findings (D8) would fill them and hide
+// anything new, so only the first violation of each kind is reported (all are counted).
+var reportedKinds = map[string]bool{}
+
 func (x *runner) viol(kind, detail string) {
 	x.viols++
 	x.o.Count("violation:" + kind)
+	if reportedKinds[kind] {
+		return
+	}
+	reportedKinds[kind] = true
 	rep := append([]string{"schedule: " + x.sc.String(), "log up to the violation:"}, x.lines...)
 	x.o.Violate(hx.Violation{Kind: kind, Detail: detail, Replay: rep})
 }
@@ -716,9 +724,9 @@ func Run(o *hx.Out, g *hx.Rng, tier string) {
 	// hx.NewRng(k) is hx.NewRng(1) advanced by k-1 draws; Fork hashes, which decorrelates the seeds
 	g = g.Fork()
 	test := func(t *testing.T) {
-		n := 2500
+		n := 8000
 		if tier == "thorough" {
-			n = 120000
+			n = 150000
 		}
 		o.Res.Rule = "distinct = distinct schedules (hash of the event list); every schedule blocks at least one real caller"
 		o.Note(fmt.Sprintf("go %s, testing/synctest bubble per schedule, asynctimerchan=%v, SystemTimedSched inert, update pumped by hand", "1.26", async))
